@@ -411,12 +411,17 @@ func RCommitPos(c *core.Ctx) {
 					}
 				}
 			}
-			if !commits {
+			if !commits && !records {
 				return true
 			}
 			cnt++
 			n++
 			c.Visit(name)
+			if !commits {
+				c.Bad(fmt.Sprintf("%s / commit #%d of a longer group number also records the position", name, cnt), ifs.Pos(),
+					"the position after %s is saved but the number itself is not taken over: the digits are consumed while the reference still names the shorter group", cand.Name)
+				return true
+			}
 			c.Check(records, fmt.Sprintf("%s / commit #%d of a longer group number also records the position", name, cnt), ifs.Pos(),
 				"%s is accepted as the group number but the position after it is not saved; the function rewinds with textto() to the last saved position, so the digits just accepted are scanned again as literal text", cand.Name)
 			return true
